@@ -1,7 +1,9 @@
 package v1
 
 import (
+	"fmt"
 	"net/http"
+	"strconv"
 
 	"github.com/formancehq/go-libs/v5/pkg/query"
 	"github.com/formancehq/go-libs/v5/pkg/storage/bun/paginate"
@@ -11,10 +13,15 @@ import (
 	storagecommon "github.com/formancehq/ledger/internal/storage/common"
 )
 
-func buildGetLogsQuery(r *http.Request) query.Builder {
+func buildGetLogsQuery(r *http.Request) (query.Builder, error) {
 	clauses := make([]query.Builder, 0)
 	if after := r.URL.Query().Get("after"); after != "" {
-		clauses = append(clauses, query.Lt("id", after))
+		// ids are numeric: the filter compares numbers, not the raw query string
+		afterID, err := strconv.ParseUint(after, 10, 64)
+		if err != nil {
+			return nil, fmt.Errorf("invalid 'after' query param: %w", err)
+		}
+		clauses = append(clauses, query.Lt("id", afterID))
 	}
 
 	if startTime := r.URL.Query().Get("start_time"); startTime != "" {
@@ -25,13 +32,13 @@ func buildGetLogsQuery(r *http.Request) query.Builder {
 	}
 
 	if len(clauses) == 0 {
-		return nil
+		return nil, nil
 	}
 	if len(clauses) == 1 {
-		return clauses[0]
+		return clauses[0], nil
 	}
 
-	return query.And(clauses...)
+	return query.And(clauses...), nil
 }
 
 func getLogs(w http.ResponseWriter, r *http.Request) {
@@ -42,8 +49,9 @@ func getLogs(w http.ResponseWriter, r *http.Request) {
 		"id",
 		paginate.OrderDesc,
 		func(resourceQuery *storagecommon.ResourceQuery[any]) error {
-			resourceQuery.Builder = buildGetLogsQuery(r)
-			return nil
+			var err error
+			resourceQuery.Builder, err = buildGetLogsQuery(r)
+			return err
 		},
 	)
 	if err != nil {
